@@ -553,3 +553,12 @@ def re_finditer(pattern, text, flags):
 
 def re_escape(s):
     return _re.escape(s)
+
+
+def re_groups(pattern, s, how):
+    """groups (0..n) of Python's re.match / re.search / re.fullmatch of a constant pattern, or None
+    (engine twin: pyvc.regex_model on strings of concrete length)"""
+    m = getattr(_re, how)(pattern, s)
+    if m is None:
+        return None
+    return tuple(m.group(i) for i in range(0, m.re.groups + 1))
